@@ -38,7 +38,8 @@ _p("C16", ["instances"], ["pipeline"], "Counter invariant of the instance cap (e
    "namespace filter and composition: " + MON)
 _p("C03", ["shexing"], [], "wip")
 _p("C04", ["shexing", "c20_config"], [], "wip")
-for pid in ("C01", "C02", "C09", "C12", "C13", "C14"):
+_p("C01", ["instances", "profiling", "shexing"], ["pipeline"], "wip")
+for pid in ("C02", "C09", "C12", "C13", "C14"):
     _p(pid, [], ["pipeline"], MON)
 
 HOOK_COMMITS = []
